@@ -183,25 +183,40 @@ def r5(ctx):
                            "pingthread.start": lambda I, run, a, k, n: (run.effect("thread.start", ()), NONE)[1], "stopev.set": lambda *a: NONE,
                            "pingthread.is_alive": lambda *a: FALSE})
     I2 = Interp(ctx.index, Config(stubs=st))
-    for m in ("_start_ping_thread", "_stop_ping_thread"):
-        def body(run, m=m):
-            app = mk_app(I2, run, last_ping_tm=C(5.0), last_pong_tm=C(7.0), stop_ping=new_obj(run, None, "stopev"), ping_thread=new_obj(run, None, "pingthread"))
-            I2.call(run, I2.getattr(run, app, m, None), [], {}, None)
-            return app
-        for o in ctx.count_paths(I2.explore(body)):
-            f = o.run.cell(o.value).fields
-            ok = f.get("last_ping_tm") == C(0.0) and f.get("last_pong_tm") == C(0.0)
-            if m == "_start_ping_thread":
-                ev = f.get("stop_ping")
-                fresh = isinstance(ev, Ref) and o.run.cell(ev).label == "freshev"
-                ctx.ob(f"{APP}._start_ping_thread:fresh-unset-stop-event", fresh,
-                       "every ping thread gets a new, unset stop event" if fresh else
-                       "the stop event of the previous connection (left set by _stop_ping_thread) is reused: the new ping thread exits at once and no ping is ever sent on a re-established connection",
-                       ctx.index.loc(ctx.index.func(f"{APP}._start_ping_thread").node))
-                th = [e for e in o.effects if e.name == "Thread"]
-                ok = ok and len(th) == 1 and getattr(th[0].kwargs.get("target"), "fn", None) is not None and th[0].kwargs["target"].fn.qualname == f"{APP}._send_ping" \
-                    and "thread.start" in [e.name for e in o.effects]
-            ctx.ob(f"{APP}.{m}:timestamps-zeroed", ok, f"last_ping_tm={f.get('last_ping_tm')!r} last_pong_tm={f.get('last_pong_tm')!r}", ctx.index.loc(ctx.index.func(f'{APP}.{m}').node))
+    def body(run):
+        app = mk_app(I2, run, last_ping_tm=C(5.0), last_pong_tm=C(7.0), stop_ping=new_obj(run, None, "stopev"), ping_thread=new_obj(run, None, "pingthread"))
+        I2.call(run, I2.getattr(run, app, "_stop_ping_thread", None), [], {}, None)
+        return app
+    for o in ctx.count_paths(I2.explore(body)):
+        f = o.run.cell(o.value).fields
+        ok = f.get("last_ping_tm") == C(0.0) and f.get("last_pong_tm") == C(0.0)
+        ctx.ob(f"{APP}._stop_ping_thread:timestamps-zeroed", ok, f"last_ping_tm={f.get('last_ping_tm')!r} last_pong_tm={f.get('last_pong_tm')!r}", ctx.index.loc(ctx.index.func(f'{APP}._stop_ping_thread').node))
+    # starting the ping thread, observed where run_forever does it (setSock after a successful connect), wherever the code lives
+    from .c13 import setsock_paths
+    Is, outs_s = setsock_paths(ctx, True, False, ping_interval=5, sock_set=True,
+                               app_fields=lambda run: dict(last_ping_tm=C(5.0), last_pong_tm=C(7.0), stop_ping=new_obj(run, None, "stopev"), ping_thread=new_obj(run, None, "oldthread")))
+    loc_s = ctx.index.loc(ctx.index.func(f"{RF}.setSock").node)
+    started = 0
+    for o in outs_s:
+        names = [e.name for e in o.effects]
+        if "pingthread.start" not in names:
+            continue
+        started += 1
+        f = next(c for c in o.run.heap.values() if getattr(c, "label", "") == "app").fields
+        ev = f.get("stop_ping")
+        fresh = isinstance(ev, Ref) and o.run.cell(ev).label == "freshev"
+        ctx.ob(f"{APP}._start_ping_thread:fresh-unset-stop-event", fresh,
+               "every ping thread gets a new, unset stop event" if fresh else
+               "the stop event of the previous connection (left set by _stop_ping_thread) is reused: the new ping thread exits at once and no ping is ever sent on a re-established connection",
+               loc_s)
+        th = [e for e in o.effects if e.name == "Thread"]
+        ok = f.get("last_ping_tm") == C(0.0) and f.get("last_pong_tm") == C(0.0)
+        ok = ok and len(th) == 1 and getattr(th[0].kwargs.get("target"), "fn", None) is not None and th[0].kwargs["target"].fn.qualname == f"{APP}._send_ping"
+        pt = f.get("ping_thread")
+        ok = ok and isinstance(pt, Ref) and o.run.cell(pt).label == "pingthread"
+        ctx.ob(f"{APP}._start_ping_thread:timestamps-zeroed", ok, f"last_ping_tm={f.get('last_ping_tm')!r} last_pong_tm={f.get('last_pong_tm')!r}; Thread{th[0].kwargs if th else ''}", loc_s)
+    if not started:
+        raise AnalysisError("no path of setSock starts a ping thread although ping_interval is set")
 
 
 @rule("R-C16-3", min_instances=4, title="the timeout check runs on every loop iteration of both dispatchers, also while data keeps arriving and also on silence")
